@@ -397,6 +397,23 @@ pub fn check_copy(case: &CopyCase) -> CaseResult {
     }
     let has_link = pre.subtree(s).iter().any(|k| pre.kind(k) == Some(Kind::Link));
     if case.variant == 4 && has_link {
+        // a link below a directory of the source that leads back to that directory or above it (inside the
+        // source) is a cycle for the following traversal: it is reported, not skipped - an Ok would claim a
+        // duplicate of something endless
+        let src_real = match pre.nodes.get(s) {
+            Some(Node::Link { target, .. }) => target.clone(),
+            _ => s.to_string(),
+        };
+        // (an Ok that changed nothing is the documented no-op of copying something onto itself: no traversal ran)
+        if pre.kind(&src_real) == Some(Kind::Dir) && pre != post {
+            for k in pre.subtree(&src_real) {
+                if let Some(Node::Link { target, .. }) = pre.nodes.get(&k) {
+                    if k != src_real && is_under(&k, target) && is_under(target, &src_real) && pre.kind(target) == Some(Kind::Dir) {
+                        return fail("copy-follow|link-cycle-skipped", format!("the source holds {:?} -> {:?}, an ancestor of the link inside the source: the following traversal cannot finish, yet the copy returned Ok", k, target));
+                    }
+                }
+            }
+        }
         // following links while copying: placement is not documented (DESIGN 6.3), but a successful
         // copy still leaves the (followed) source untouched
         if let Some(Node::Link { target, .. }) = pre.nodes.get(s) {
